@@ -216,6 +216,121 @@ func init() {
 		Explanation: "Decides the preconditions and wiring SubMerge relies on: (a) resolution ≥ source and resolution/stride multiples of the source resolution are validated (errors) before a group-by is planned; (b) same-typed arguments out/in (resolutions, expression lists) are never swapped between group.Iterate, bytetree.New, the Tree's fields and Sequence.SubMerge; (c) group keys are built from name-sorted GroupBy lists at both construction sites.",
 		NotDecided:  []string{"the bucket arithmetic floor((po+untilOffset)/scale)", "anchoring at the moving 'now'", "values of re-computed ratios"},
 		Assumptions: []string{"role names out*/in*, resolution/otherResolution, ex/otherEx are used consistently in bytetree and encoding"},
-		Rules:       []func(*Ctx){func(c *Ctx) { ruleC06a(c, "C06.a") }, func(c *Ctx) { ruleC06b(c, "C06.b") }, func(c *Ctx) { ruleC06c(c, "C06.c") }},
+		Rules:       []func(*Ctx){func(c *Ctx) { ruleC06a(c, "C06.a") }, func(c *Ctx) { ruleC06b(c, "C06.b") }, func(c *Ctx) { ruleC06c(c, "C06.c") }, func(c *Ctx) { rulePurity(c, "C06.d") }, func(c *Ctx) { ruleC06e(c, "C06.e") }},
 	})
+}
+
+// ruleC06e: planLocal adds the group-by whenever the query changes the
+// grouping, resolution or window.
+func ruleC06e(c *Ctx, rule string) {
+	c.describe(rule, "dom: planLocal re-aggregates whenever the query differs from the table's native shape — each of asOfChanged, untilChanged, resolutionChanged, !GroupByAll, HasSpecificFields, HasHaving, Crosstab != nil, strideSlice > 0 forces addGroupBy before Flatten; (*node).doUpdate hands the source's column to SubMerge unmodified")
+	pl := c.need(rule, "z/planner.planLocal")
+	if pl == nil {
+		return
+	}
+	gb := callsTo(pl, "z/planner.addGroupBy")
+	ft := callsTo(pl, "z/core.Flatten")
+	if len(gb) != 1 || len(ft) != 1 {
+		c.undecided(rule, "planLocal group-by", pl.Pos(), "expected one addGroupBy and one Flatten call")
+		return
+	}
+	forces := func(ci condIf, val bool) bool {
+		s := ci.succFor(val)
+		// every feasible path (phi-aware: 'a || b || …' lowers to a phi of
+		// constants) from this edge to Flatten passes addGroupBy
+		all := true
+		_, complete := pathsToFrom(ci.i.Block(), s, ft[0].Block(), func(p pathAtoms) bool {
+			pass := false
+			for _, b := range p.blocks {
+				if b == gb[0].Block() {
+					pass = true
+				}
+			}
+			if !pass {
+				all = false
+			}
+			return all
+		})
+		return all && complete
+	}
+	type dis struct {
+		name string
+		pred func(v ssa.Value) bool
+		val  bool
+	}
+	ds := []dis{
+		{"asOfChanged", func(v ssa.Value) bool { return isResultOfCall(v, 1, "z/planner.asOfUntilFor") }, true},
+		{"untilChanged", func(v ssa.Value) bool { return isResultOfCall(v, 3, "z/planner.asOfUntilFor") }, true},
+		{"resolutionChanged", func(v ssa.Value) bool { return isResultOfCall(v, 2, "z/planner.resolutionFor") }, true},
+		{"!GroupByAll", func(v ssa.Value) bool { return isFieldLoad(v, "z/sql.Query.GroupByAll") }, false},
+		{"HasSpecificFields", func(v ssa.Value) bool { return isFieldLoad(v, "z/sql.Query.HasSpecificFields") }, true},
+		{"HasHaving", func(v ssa.Value) bool { return isFieldLoad(v, "z/sql.Query.HasHaving") }, true},
+		{"Crosstab != nil", func(v ssa.Value) bool {
+			x, _, ok := nilTest(atom{v, true})
+			return ok && isFieldLoad(x, "z/sql.Query.Crosstab")
+		}, true},
+		{"strideSlice > 0", func(v ssa.Value) bool {
+			b, ok := v.(*ssa.BinOp)
+			return ok && b.Op == token.GTR && isResultOfCall(b.X, 1, "z/planner.resolutionFor")
+		}, true},
+	}
+	for _, d := range ds {
+		found := false
+		ok := true
+		for _, ci := range findIfs(pl, d.pred) {
+			// only tests that lie before the group-by
+			if !reach([]*ssa.BasicBlock{ci.i.Block()}, nil, nil)[gb[0].Block()] {
+				continue
+			}
+			found = true
+			val := d.val
+			if d.name == "Crosstab != nil" {
+				_, nn, _ := nilTest(atom{ci.v, true})
+				val = nn
+			}
+			if !forces(ci, val) {
+				ok = false
+			}
+		}
+		if !found {
+			// last disjunct of 'a || b || … || z': no branch of its own, its value
+			// is the phi's incoming value on the fall-through edge
+			for _, in := range instrs(pl) {
+				ph, isPhi := in.(*ssa.Phi)
+				if !isPhi {
+					continue
+				}
+				for _, e := range ph.Edges {
+					v, pol := unNot(e, true)
+					if d.pred(v) && pol == d.val {
+						for _, ci := range findIfs(pl, func(x ssa.Value) bool { return x == ssa.Value(ph) }) {
+							found = true
+							if !forces(ci, true) {
+								ok = false
+							}
+						}
+					}
+				}
+			}
+		}
+		c.check(rule, "planLocal: "+d.name+" forces the group-by", gb[0].Pos(), found && ok, "this outcome cannot reach Flatten without addGroupBy", "a query with "+d.name+" can be planned without the group-by stage: it silently returns rows in the table's native grouping/resolution/window")
+	}
+	if du := c.need(rule, "(*z/bytetree.node).doUpdate"); du != nil {
+		var valsP *ssa.Parameter
+		for _, p := range du.Params {
+			if isSeqContainer(p.Type()) {
+				valsP = p
+			}
+		}
+		for _, call := range callsTo(du, "(z/encoding.Sequence).SubMerge") {
+			a := call.Common().Args[1]
+			ok := false
+			if u, isU := strip(a).(*ssa.UnOp); isU {
+				if ia, isI := u.X.(*ssa.IndexAddr); isI && valsP != nil && ia.X == ssa.Value(valsP) {
+					ok = true
+				}
+			}
+			c.check(rule, "doUpdate: SubMerge receives the source column unmodified", call.Pos(), ok, "other = vals[i]", "the column handed to SubMerge is not the source's vals[i] itself (pre-trimmed / transformed): SubMerge's own shift-aware truncation (asOf - shift) can no longer keep the periods it needs")
+		}
+	}
 }
